@@ -55,7 +55,7 @@ class ProportionalApproval:
             drop in satisfaction when the given candidate is excluded from the
             selected set.
         """
-        if len(self._coefs) < n_seats:
+        if len(self._coefs) < n_seats + 1:
             self._coefs += [
                 sum(Fraction(1, k + 1) for k in range(n))
                 for n in range(len(self._coefs), n_seats + 1)
